@@ -41,8 +41,8 @@ use std::sync::{Arc, Condvar, Mutex, Once};
 use std::time::{Duration, Instant};
 
 /// how often each oracle's premise held (printed to stderr when `KV_ORACLE_STATS` is set)
-static CHECKS: [AtomicUsize; 9] = [const { AtomicUsize::new(0) }; 9];
-const CHECK_NAMES: [&str; 9] = [
+static CHECKS: [AtomicUsize; 11] = [const { AtomicUsize::new(0) }; 11];
+const CHECK_NAMES: [&str; 11] = [
 	"side_by_side_proc_calls",
 	"side_by_side_frames_rendered",
 	"position_within_a_frame",
@@ -52,6 +52,8 @@ const CHECK_NAMES: [&str; 9] = [
 	"gapped_walk_frames",
 	"proc_calls_not_comparable",
 	"thread_ends_after_abandoned",
+	"seek_walk_frames",
+	"seek_walk_seeks",
 ];
 fn tick(i: usize, n: usize) {
 	CHECKS[i].fetch_add(n, Ordering::Relaxed);
@@ -383,6 +385,24 @@ struct Run {
 	walk: bool,
 	last_heard: Option<usize>,
 	silent_since_heard: bool,
+	/// C18 seek walk (see `SeekWalk`)
+	c18: Option<SeekWalk>,
+}
+
+/// C18: "streaming the same audio yields the frames of the loaded sound at the same positions, also after any
+/// sequence of seeks". Premise: neutral settings, index-coded frames, rate 1 with `sr * dt == 1`, no loop region,
+/// immediate start, no pause / stop, the decoder stepped by hand and ahead of the playback. Then the frames heard
+/// are, in order, the frames of the loaded sound at positions p, p+1, … from the start position, and — from the
+/// moment the decoder takes a seek — at target, target+1, …, where the target of `seek_to(t)` is the frame nearest
+/// to t and the target of `seek_by(a)` is the frame nearest to (position reported by the handle) + a.
+/// `queue` holds the positions delivered by the decoder and not yet heard.
+struct SeekWalk {
+	queue: std::collections::VecDeque<usize>,
+	/// the position the next delivered frame has to come from
+	next: usize,
+	ended: bool,
+	pending_by: Option<f64>,
+	pending_to: Option<f64>,
 }
 
 fn show_s(r: &Run) -> String {
@@ -512,7 +532,17 @@ fn make(tok: &[&str], ids: &Ids) -> Result<Run, String> {
 			&& into_samples(start_position, sr) < n,
 		last_heard: None,
 		silent_since_heard: false,
+		c18: None,
 	};
+	if run.walk && fail_at.is_none() {
+		run.c18 = Some(SeekWalk {
+			queue: Default::default(),
+			next: into_samples(start_position, sr),
+			ended: false,
+			pending_by: None,
+			pending_to: None,
+		});
+	}
 	match split(tdata) {
 		Ok((sound, handle, sched)) => {
 			run.tsound = Some(sound);
@@ -699,6 +729,26 @@ fn exec(case: &[String], out: &mut Out) {
 						}
 						compare_handles(r, out, l, false);
 					}
+					// --- C18: the frames heard are the loaded sound's frames at the positions played, seeks included ---
+					if let Some(mut w) = r.c18.take() {
+						if r.sr as f64 * dt == 1.0 && (w.ended || w.queue.len() >= len + 1) {
+							tick(9, len);
+							let mut ok = true;
+							for f in &tbuf {
+								let want = w.queue.pop_front();
+								if decode_idx(r, *f) != Some(want) {
+									ok = false;
+									break;
+								}
+							}
+							if ok {
+								r.c18 = Some(w);
+							} else {
+								out.oracle_fail("stream_frames_not_loaded_frames_at_position", l);
+							}
+						}
+						// (otherwise the decoder is not ahead, or the step is not one frame: nothing later is comparable)
+					}
 					// --- C10 ---
 					let all_zero = tbuf.iter().all(|f| f.left == 0.0 && f.right == 0.0);
 					let t_state = r.thandle.as_ref().map(|h| state_num(h.state()));
@@ -765,7 +815,45 @@ fn exec(case: &[String], out: &mut Out) {
 					let mut last = "none";
 					while n < max {
 						n += 1;
-						match sched.run() {
+						// (C18) what the handle reports right now: the reference point of a pending `seek_by`
+						let reported = match (&r.c18, &r.thandle) {
+							(Some(w), Some(h)) if w.pending_by.is_some() => h.position(),
+							_ => 0.0,
+						};
+						let res = sched.run();
+						// (C18) an iteration that did not return early (ring full) took the pending seeks - `seek_by` first,
+						// then `seek_to` - and delivered the frame at the position it then stood at
+						if !matches!(res, Ok(HNextStep::Wait)) {
+							let mut outside = false;
+							if let Some(w) = r.c18.as_mut() {
+								let mut target = None;
+								if let Some(a) = w.pending_by.take() {
+									target = Some(((reported + a) * r.sr as f64).round() as usize);
+								}
+								if let Some(t) = w.pending_to.take() {
+									target = Some((t * r.sr as f64).round() as usize);
+								}
+								if let Some(t) = target {
+									tick(10, 1);
+									w.next = t;
+								}
+								if res.is_err() || w.next >= r.n || w.ended {
+									// a failing decoder, a seek past the end of the audio, a command after the decoder ended:
+									// outside the premise
+									outside = true;
+								} else {
+									w.queue.push_back(w.next);
+									w.next += 1;
+									if matches!(res, Ok(HNextStep::End)) {
+										w.ended = true;
+									}
+								}
+							}
+							if outside {
+								r.c18 = None;
+							}
+						}
+						match res {
 							Ok(HNextStep::Continue) => {
 								r.pushed += 1.0;
 								last = "cont";
@@ -801,6 +889,7 @@ fn exec(case: &[String], out: &mut Out) {
 					r.sched = None;
 					out.put("ended");
 				} else {
+					r.c18 = None;
 					let sched = r.sched.take().expect("tstart twice");
 					r.gate = Some(start_gated(sched, &r.probe, false));
 					out.put("ok");
@@ -891,6 +980,7 @@ fn exec(case: &[String], out: &mut Out) {
 				}
 			}
 			"sdrop" => {
+				r.c18 = None;
 				if r.place == Place::InTrack && r.tsound.is_some() {
 					r.tsound = None;
 					r.place = Place::Abandoned;
@@ -899,6 +989,7 @@ fn exec(case: &[String], out: &mut Out) {
 				out.put(show(r));
 			}
 			"hdrop" => {
+				r.c18 = None;
 				r.thandle = None;
 				r.comparable = false;
 				out.put(show(r));
@@ -945,11 +1036,17 @@ fn exec(case: &[String], out: &mut Out) {
 					"seekto" => {
 						r.comparable = false;
 						r.walk = false;
+						if let Some(w) = r.c18.as_mut() {
+							w.pending_to = Some(p64(tok[1]));
+						}
 						both!(seek_to(p64(tok[1])))
 					}
 					"seekby" => {
 						r.comparable = false;
 						r.walk = false;
+						if let Some(w) = r.c18.as_mut() {
+							w.pending_by = Some(p64(tok[1]));
+						}
 						both!(seek_by(p64(tok[1])))
 					}
 					_ => panic!("stream: unknown op {}", tok[0]),
@@ -959,6 +1056,9 @@ fn exec(case: &[String], out: &mut Out) {
 				}
 				if r.thandle.is_some() {
 					r.life.command(&tok);
+				}
+				if !matches!(tok[0], "seekto" | "seekby") {
+					r.c18 = None;
 				}
 				out.put(show(r));
 			}
@@ -1425,6 +1525,16 @@ fn gen_packets(rng: &mut Rng) -> String {
 		}
 	}
 }
+/// packet sizes for long sounds: the twin's decoded chunk is a list (a frame lookup costs its offset in the chunk),
+/// so the one-packet-holds-the-whole-file shape is left to the short sounds (and to the thorough tier)
+fn gen_packets_long(rng: &mut Rng, thorough: bool) -> String {
+	loop {
+		let p = gen_packets(rng);
+		if p != "100000" || (thorough && rng.chance(1, 2)) {
+			return p;
+		}
+	}
+}
 fn gen_gran(rng: &mut Rng) -> u64 {
 	match rng.below(8) {
 		0 | 1 => 1,
@@ -1591,6 +1701,255 @@ fn gen_stream_case(rng: &mut Rng, out: &mut Vec<String>, stats: &mut Stats) {
 	}
 }
 
+/// the generator's own picture of a hand-stepped neutral stream at one frame per output frame: the positions
+/// queued in the frame ring (the ring also holds the frame heard last, so it is full at `RING - 1` queued
+/// positions), the position the decoder stands at, the frame the handle reports
+struct GenWalk {
+	n: u64,
+	queue: std::collections::VecDeque<u64>,
+	next: u64,
+	cur: u64,
+	ended: bool,
+	pend_by: Option<i64>,
+	pend_to: Option<u64>,
+	pops: u64,
+}
+const RING: usize = 16_384;
+impl GenWalk {
+	fn new(n: u64, start: u64) -> Self {
+		Self {
+			n,
+			queue: Default::default(),
+			next: start,
+			cur: start,
+			ended: false,
+			pend_by: None,
+			pend_to: None,
+			pops: 0,
+		}
+	}
+	fn dec(&mut self, budget: u64) {
+		for _ in 0..budget {
+			if self.ended || self.queue.len() + 1 >= RING {
+				return;
+			}
+			if let Some(a) = self.pend_by.take() {
+				self.next = (self.cur as i64 + a).max(0) as u64;
+			}
+			if let Some(t) = self.pend_to.take() {
+				self.next = t;
+			}
+			self.queue.push_back(self.next);
+			self.next += 1;
+			if self.next >= self.n {
+				self.ended = true;
+			}
+		}
+	}
+	fn start(&mut self) {
+		if let Some(f) = self.queue.front() {
+			self.cur = *f;
+		}
+	}
+	fn proc(&mut self, len: u64) {
+		for _ in 0..len {
+			if self.queue.pop_front().is_some() {
+				self.pops += 1;
+			}
+		}
+	}
+}
+
+/// a sample rate with `sr * (1 / sr) == 1.0` exactly (one source frame per output frame, fraction 0)
+fn gen_exact_sr(rng: &mut Rng) -> u64 {
+	loop {
+		let sr = rng.pick(&[1u64, 1, 2, 4, 8, 10, 1000, 44100, 48000, 22050, 96000]);
+		if sr as f64 * (1.0 / sr as f64) == 1.0 {
+			return sr;
+		}
+	}
+}
+
+/// C18 seek walks (and, with `long`, C09/C18 long streams): a neutral index-coded stream at rate 1, the decoder
+/// `lead` frames ahead of the playback (0 = tight, `RING` = as far as the ring allows), `seek_to` / `seek_by`
+/// every few callbacks while the decoder is ahead, every seek target inside the audio. With `long` the sound is
+/// longer than two frame rings and is played until the ring's read window has passed the physical end of the
+/// ring buffer twice.
+fn gen_seekwalk_case(rng: &mut Rng, out: &mut Vec<String>, stats: &mut Stats, long: bool, lead: u64, seeks: bool, thorough: bool) {
+	let sr = gen_exact_sr(rng);
+	let dt = 1.0 / sr as f64;
+	let full = lead >= RING as u64;
+	let start = if rng.chance(1, 3) { rng.below(300) } else { 0 };
+	let n = if long {
+		2 * RING as u64 + 400 + start + rng.below(3000)
+	} else if full {
+		RING as u64 + 3000 + rng.below(3000)
+	} else {
+		2500 + rng.below(3000)
+	};
+	out.push(format!(
+		"new {} {} {} none imm {} none fix:{} fix:{} fix:{} none {} {} none",
+		sr,
+		n,
+		rng.pick(&["idx", "idx", "lr"]),
+		fmt_pos(rng, start, sr),
+		o32(0.0),
+		o64(1.0),
+		o32(0.0),
+		if long || full { gen_packets_long(rng, thorough) } else { gen_packets(rng) },
+		gen_gran(rng)
+	));
+	stats.hit("new");
+	stats.hit(if long { "case_long_walk" } else { "case_seek_walk" });
+	let mut sim = GenWalk::new(n, start);
+	let goal_pops = 2 * RING as u64 + 100;
+	let callbacks = if long { u64::MAX } else { 6 + rng.below(10) };
+	let mut cb = 0;
+	while cb < callbacks && !(long && sim.pops >= goal_pops) && !sim.ended {
+		cb += 1;
+		if seeks && rng.chance(1, if long { 6 } else { 2 }) {
+			if rng.chance(1, 2) {
+				// relative: the reference point is the frame the handle reports (`cur`), not where the decoder stands
+				let a = match rng.below(6) {
+					0 => -(rng.below(40) as i64),
+					1 => rng.below(40) as i64,
+					2 => -(sim.cur as i64) - rng.below(3) as i64,
+					3 => -(rng.below(if long { 6000 } else { 900 }) as i64),
+					_ => rng.below(if long { 2500 } else { 500 }) as i64,
+				};
+				if sim.cur as i64 + a < n as i64 - 2 {
+					out.push(format!("seekby {}", o64(a as f64 / sr as f64)));
+					stats.hit("seekby");
+					sim.pend_by = Some(a);
+				}
+			} else {
+				let t = match rng.below(5) {
+					0 => 0,
+					1 => sim.cur,
+					2 => sim.next.min(n - 2),
+					_ => rng.below(n - 2),
+				};
+				out.push(format!("seekto {}", o64(t as f64 / sr as f64)));
+				stats.hit("seekto");
+				sim.pend_to = Some(t);
+			}
+		}
+		let len = if long {
+			// (chunks and leads are kept moderate: the twin's ring is a list, every push costs its length)
+			match rng.below(6) {
+				0 => 1 + rng.below(64),
+				1 => 1024,
+				_ => 64 + rng.below(900),
+			}
+		} else {
+			match rng.below(4) {
+				0 => gen_chunk(rng),
+				_ => 8 + rng.below(120),
+			}
+		};
+		// what the decoder is given: enough for this callback (+ the window), plus the lead while it is being built up
+		let have = sim.queue.len() as u64;
+		let (budget, pushes) = if full {
+			(40_000, (RING as u64 - 1).saturating_sub(have))
+		} else {
+			let b = (len + 2 + lead).saturating_sub(have).max(rng.below(3));
+			(b, b)
+		};
+		// the decoder must not reach the end of the data before the closing phase (a decoder that reached the end
+		// of its data takes no more commands): send it back in time
+		let target_next = match (sim.pend_to, sim.pend_by) {
+			(Some(t), _) => t,
+			(None, Some(a)) => (sim.cur as i64 + a).max(0) as u64,
+			_ => sim.next,
+		};
+		if target_next + pushes + 2 >= n {
+			let t = rng.below(if long { 3000 } else { 300 });
+			out.push(format!("seekto {}", o64(t as f64 / sr as f64)));
+			stats.hit("seekto");
+			stats.hit("seekto_keepalive");
+			sim.pend_to = Some(t);
+		}
+		out.push(format!("dec {}", budget));
+		stats.hit("dec");
+		sim.dec(budget);
+		out.push("start".to_string());
+		stats.hit("start");
+		sim.start();
+		let len = len.min((sim.queue.len() as u64).saturating_sub(1));
+		out.push(format!("proc {} {}", len, o64(dt)));
+		stats.hit("proc");
+		stats.add("frames", len);
+		sim.proc(len);
+	}
+	// closing phase: one case in three plays the sound out to its end (Stopped, unloaded)
+	if rng.chance(1, 3) {
+		let mut guard = 0;
+		while !(sim.ended && sim.queue.is_empty()) && guard < 400 {
+			guard += 1;
+			let len = if long { 1024 } else { 64 + rng.below(64) };
+			// (a modest lead: the twin's ring is a list, every push costs its length)
+			let budget = (len + 2 + lead.min(600)).saturating_sub(sim.queue.len() as u64);
+			out.push(format!("dec {}", budget));
+			sim.dec(budget);
+			out.push("start".to_string());
+			sim.start();
+			out.push(format!("proc {} {}", len, o64(dt)));
+			stats.add("frames", len);
+			sim.proc(len);
+		}
+		for _ in 0..2 {
+			out.push("start".to_string());
+			out.push(format!("proc 3 {}", o64(dt)));
+		}
+		stats.hit("played_out");
+	}
+}
+
+/// C09 / C18 long streams with ANY settings (rates that leave a fraction, volume, panning, noise): static and
+/// streaming sound side by side until the ring's read window has passed the physical end of the ring twice
+fn gen_long_free_case(rng: &mut Rng, out: &mut Vec<String>, stats: &mut Stats, thorough: bool) {
+	let sr = gen_exact_sr(rng);
+	let dt = 1.0 / sr as f64;
+	let rate = rng.pick(&[std::f64::consts::SQRT_2, 2.0, 1.0, 1.5, 3.7]);
+	let n = 2 * RING as u64 + 400 + rng.below(2000);
+	out.push(format!(
+		"new {} {} {} none imm n=0 none {} fix:{} {} none {} {} none",
+		sr,
+		n,
+		match rng.below(3) {
+			0 => "idx".to_string(),
+			_ => format!("rnd={}", rng.below(1000)),
+		},
+		format!("fix:{}", o32(rng.pick(&[0.0f32, -6.0, 3.0]))),
+		o64(rate),
+		format!("fix:{}", o32(rng.pick(&[0.0f32, 0.3, -1.0]))),
+		gen_packets_long(rng, thorough),
+		gen_gran(rng)
+	));
+	stats.hit("new");
+	stats.hit("case_long_free");
+	let lead = rng.pick(&[0u64, 30, 700]);
+	let mut consumed = 0.0f64;
+	let mut first = true;
+	while consumed < (2 * RING + 200) as f64 {
+		let len = match rng.below(6) {
+			0 => 1 + rng.below(64),
+			1 => (1024.0 / rate) as u64,
+			_ => ((100 + rng.below(800)) as f64 / rate) as u64,
+		};
+		let need = (len as f64 * rate).ceil() + 2.0;
+		out.push(format!("dec {}", need as u64 + 6 + if first { lead } else { 0 }));
+		first = false;
+		out.push("start".to_string());
+		out.push(format!("proc {} {}", len, o64(dt)));
+		stats.hit("dec");
+		stats.hit("start");
+		stats.hit("proc");
+		stats.add("frames", len);
+		consumed += len as f64 * rate;
+	}
+}
+
 /// thorough tier, C09: every length ≤ 4 × start × valid loop × packet size × granularity × rate, played to the end
 fn gen_exhaustive_stream(out: &mut Vec<String>, case: &mut usize, stats: &mut Stats) {
 	let rates: [(f64, u64); 5] = [(1.0, 1), (0.5, 2), (2.0, 1), (1.0 / 3.0, 3), (0.0, 1)];
@@ -1643,10 +2002,43 @@ pub fn gen(rng: &mut Rng, n: usize, thorough: bool, stats: &mut Stats) -> Vec<St
 	if thorough {
 		gen_exhaustive_stream(&mut out, &mut case, stats);
 	}
+	// long streams first: the sound is longer than two frame rings (16384 slots each) and is played until the
+	// ring's read window has passed the physical end of the ring buffer twice
+	let longs = if thorough { 12 } else if n >= 1000 { 3 } else { 2 };
+	for i in 0..longs {
+		out.push(format!("case {}", case));
+		case += 1;
+		match i % 3 {
+			// a short lead, with and without seeks
+			0 => {
+				let lead = rng.pick(&[0u64, 5, 300]);
+				let seeks = rng.chance(1, 2);
+				gen_seekwalk_case(rng, &mut out, stats, true, lead, seeks, thorough)
+			}
+			// the decoder far ahead, seeks from there
+			1 => {
+				let lead = 300 + rng.below(500);
+				gen_seekwalk_case(rng, &mut out, stats, true, lead, true, thorough)
+			}
+			_ => gen_long_free_case(rng, &mut out, stats, thorough),
+		}
+	}
+	// the decoder as far ahead as the ring allows (it waits on the full ring), seeks from there
+	for _ in 0..(if thorough { 3 } else if n >= 1000 { 1 } else { 0 }) {
+		out.push(format!("case {}", case));
+		case += 1;
+		gen_seekwalk_case(rng, &mut out, stats, false, RING as u64, true, thorough);
+		stats.hit("case_full_ring");
+	}
 	for _ in 0..n {
 		out.push(format!("case {}", case));
 		case += 1;
-		gen_stream_case(rng, &mut out, stats);
+		if rng.chance(1, 10) {
+			let lead = rng.pick(&[0u64, 3, 40, 40, 400, 1000]);
+			gen_seekwalk_case(rng, &mut out, stats, false, lead, true, thorough);
+		} else {
+			gen_stream_case(rng, &mut out, stats);
+		}
 	}
 	out
 }
